@@ -290,6 +290,14 @@ def unique_values_eq(data: PolarsData, values: Iterable) -> bool:
     :param values: The set of values that must be present. Maybe any iterable.
     """
 
+    # null values are not values of the column (the pandas backend drops them
+    # as well)
     return (
-        set(data.lazyframe.collect().get_column(data.key).unique()) == values
+        set(
+            data.lazyframe.collect()
+            .get_column(data.key)
+            .drop_nulls()
+            .unique()
+        )
+        == values
     )
